@@ -305,6 +305,17 @@ CASES["regress/KF-C09-2.json"] = fault_case("masked", "{ getHumans { name } }", 
 CASES["regress/KF-C13-1.json"] = exec_case("C13", "data-varies", "{ __schema { t: types { n: name } d: directives { n: name } } }")
 CASES["regress/KF-C13-1.json"]["case"].update({"repeats": 15, "fresh": 8, "delays_us": [], "gomaxprocs": 4})
 
+def intro_case(sig, sdls, labels=None):
+    return {"property": "C15", "signature": sig, "case": {"sdls": sdls, "labels": labels or []}}
+
+CASES["regress/KF-C15-2.json"] = intro_case("process-death", ["type Query {\n  a: [[[[Int!]!]!]!]!\n}\n"], ["wrappersDeeperThanQuery"])
+CASES["regress/KF-C15-3.json"] = intro_case("differs", ["directive @auth(requires: String = \"x\", level: Int) on FIELD_DEFINITION | OBJECT\ntype Query {\n  a: Int\n}\n"])
+CASES["regress/KF-C15-4.json"] = intro_case("differs", ["enum Color {\n  RED\n  GREEN\n}\ninput F {\n  q: Int = 5\n  tags: [String] = [\"a\", \"b c\"]\n  c: Color = RED\n  s: String = \"5\"\n  n: F = {q: 1}\n  z: Float = null\n}\ntype Query {\n  f(a: Int! = 3, b: F = {q: 1, c: GREEN}, c: [Color!] = [RED]): Int\n}\n"])
+CASES["regress/KF-C15-5.json"] = intro_case("differs", ["enum E {\n  A @deprecated\n  B @deprecated(reason: \"use \\\"A\\\"\")\n  C\n}\ntype Query {\n  a: Int @deprecated(reason: \"old\")\n  e: E\n}\n"])
+CASES["known/KF-C15-1.json"] = intro_case("differs", ["directive @tag(name: String) repeatable on FIELD | FIELD_DEFINITION\ntype Query {\n  a: Int\n}\n"])
+CASES["known/KF-C15-1.json"]["title"] = "repeatable is lost from remote directive definitions (the introspection query does not ask for isRepeatable)"
+CASES["known/KF-C15-1.json"]["gate"] = "remote.repeatableDirective"
+
 if __name__ == "__main__":
     import sys
     sys.path.insert(0, os.path.dirname(os.path.abspath(__file__)))
